@@ -46,6 +46,19 @@ optimiser, i.e. the expressions on which the C07 theorems turn:
     k_uc_int_lower / k_uc_int_upper   decn_space_lower = numpy.repeat(0, len(xmap)) / decn_space_upper = numpy.repeat(<number>, len(xmap))
                                       (the repeated number; the per-cross nmating array may enter through its sum only)
 
+  OptimalHaploidValue{Subset,Integer,Binary,Real}Selection.problem / UsefulnessCriterion{...}Selection.problem
+  (prefix k_<fam>_<enc>_, fam in ohv, uc; enc in mate (subset), imate, bmate, rmate) - the decision space over the cross map
+    k_<fam>_calc_xmap                 <ProblemMixin>._calc_xmap: triudix if unique_parents else triuix
+    k_*_xmap                          xmap = <Problem>._calc_xmap(pgmat.ntaxa, self.nparent, self.unique_parents)   (the three arguments)
+    k_*_space_n                       decn_space = numpy.arange(len(xmap))                       (subset encoding; len(xmap) bound as nxmap)
+    k_*_lower_v / _lower_n            decn_space_lower = numpy.repeat(<value>, <count>)
+    k_*_upper_v / _upper_n            decn_space_upper = numpy.repeat(<value>, <count>)          (sums of per-cross arrays bound as one number)
+    k_*_ndecn                         ndecn = self.ncross / len(xmap)
+    pinned: decn_space = numpy.stack([lower, upper]) for the vector encodings; the problem is built with these three objects and over
+    the same map (OHV: from_pgmat_gpmod(nparent = self.nparent, unique_parents = self.unique_parents, pgmat = pgmat) recomputes
+    cls._calc_xmap(pgmat.ntaxa, nparent, unique_parents) and stores it as decn_space_xmap; UC: from_pgmat_gpmod_xmap(xmap = xmap)
+    stores the map handed in)
+
 Besides the expressions, the translator pins the *glue* around them: the statement sequence of every sample_xconfig (so that
 e.g. an outcross_shuffle moved under a condition is refused), the keyword arguments of the sampling calls, the class of the
 configuration a protocol builds, `options = numpy.repeat(numpy.arange(len(decn)), decn)`, `start = self.rng.choice(noption)`,
@@ -66,6 +79,9 @@ ERRPY = "pybrops/core/error/error_value_python.py"
 ERRNP = "pybrops/core/error/error_value_numpy.py"
 SORTING = "pybrops/opt/algo/SortingSubsetOptimizationAlgorithm.py"
 UCSEL = "pybrops/breed/prot/sel/UsefulnessCriterionSelection.py"
+OHVSEL = "pybrops/breed/prot/sel/OptimalHaploidValueSelection.py"
+OHVPROB = "pybrops/breed/prot/sel/prob/OptimalHaploidValueSelectionProblem.py"
+UCPROB = "pybrops/breed/prot/sel/prob/UsefulnessCriterionSelectionProblem.py"
 
 
 def _src(e):
@@ -498,6 +514,97 @@ def translate(repo, gen_dir):
     kw = {k.arg: _src(k.value) for k in c.keywords}
     for k, v in (("ndecn", "len(xmap)"), ("decn_space", "decn_space"), ("decn_space_lower", "decn_space_lower"), ("decn_space_upper", "decn_space_upper"), ("xmap", "xmap")):
         _need(kw.get(k) == v, "%s: the problem is not built with %s = %s" % (where, k, v))
+
+    # ================================================================== the decision space of the protocols over a cross map
+    # (OptimalHaploidValue* / UsefulnessCriterion* Selection .problem(), all four encodings): which map is built, how the space is
+    # sized from it.  One row of definitions per protocol.
+    for fam, rel, probrel, probmix in (("ohv", OHVSEL, OHVPROB, "OptimalHaploidValueSelectionProblemMixin"),
+                                       ("uc", UCSEL, UCPROB, "UsefulnessCriterionSelectionProblemMixin")):
+        # <ProblemMixin>._calc_xmap: triudix / triuix by unique_parents (the same dispatch as xmapix)
+        fn = P.find_function(repo, probrel, probmix + "._calc_xmap")
+        b = _body(fn)
+        _need(len(b) == 1 and isinstance(b[0], ast.If) and _src(b[0].test) == "unique_parents" and len(b[0].body) == 1 and len(b[0].orelse) == 1,
+              probmix + "._calc_xmap: not `if unique_parents: ... else: ...`")
+        br = []
+        for st_ in (b[0].body[0], b[0].orelse[0]):
+            _need(isinstance(st_, ast.Return) and isinstance(st_.value, ast.Call) and _src(st_.value.func) == "numpy.array" and len(st_.value.args) == 1 and not st_.value.keywords
+                  and isinstance(st_.value.args[0], ast.Call) and _src(st_.value.args[0].func) == "list" and len(st_.value.args[0].args) == 1
+                  and isinstance(st_.value.args[0].args[0], ast.Call), probmix + "._calc_xmap: branch is not `return numpy.array(list(f(a, b)))`")
+            c = st_.value.args[0].args[0]
+            _need(_src(c.func) in ("triudix", "triuix") and len(c.args) == 2 and not c.keywords and all(_src(a) in ("ntaxa", "nparent") for a in c.args),
+                  probmix + "._calc_xmap: branch `%s`" % _src(c))
+            br.append("(%s %s %s)" % (_src(c.func), _src(c.args[0]), _src(c.args[1])))
+        D("k_%s_calc_xmap {R : Type}" % fam, [("triudix", "nat -> nat -> R"), ("triuix", "nat -> nat -> R"), ("ntaxa", "nat"), ("nparent", "nat"), ("unique_parents", "bool")], "R",
+          "(if unique_parents then %s else %s)" % (br[0], br[1]), "%s._calc_xmap: %s" % (probmix, _src(b[0]).replace("\n", " ")))
+        for enc, tag in (("Subset", "mate"), ("Integer", "imate"), ("Binary", "bmate"), ("Real", "rmate")):
+            cls = {"ohv": "OptimalHaploidValue", "uc": "UsefulnessCriterion"}[fam] + enc + "Selection"
+            pcls = {"ohv": "OptimalHaploidValue%sSelectionProblem", "uc": "UsefulnessCriterion%sMateSelectionProblem"}[fam] % enc
+            fn = P.find_function(repo, rel, cls + ".problem")
+            where = cls + ".problem"
+            pre = "k_%s_%s" % (fam, tag)
+            # --- the map
+            xm = P.the_assignment(fn, "xmap")
+            _need(isinstance(xm, ast.Call) and _src(xm.func) == pcls + "._calc_xmap" and len(xm.args) == 3 and not xm.keywords,
+                  "%s: xmap is not %s._calc_xmap(a, b, c): %s" % (where, pcls, _src(xm)))
+            zenv = {"pgmat.ntaxa": "ntaxa", "self.nparent": "nparent", "self.ncross": "ncross"}
+            D(pre + "_xmap {R : Type}", [("calc", "Z -> Z -> bool -> R"), ("ntaxa", "Z"), ("nparent", "Z"), ("ncross", "Z"), ("unique_parents", "bool")], "R",
+              "(calc %s %s %s)" % (P.to_coq(xm.args[0], Zc(zenv)), P.to_coq(xm.args[1], Zc(zenv)),
+                                   P.to_coq(xm.args[2], P.Ctx("Z", {}, bool_env={"self.unique_parents": "unique_parents"}), "bool")),
+              "%s: xmap = %s" % (where, _src(xm)))
+            # --- the problem is built over the same map
+            c = P.the_assignment(fn, "prob")
+            _need(isinstance(c, ast.Call) and not c.args and all(k.arg is not None for k in c.keywords), where + ": the problem is not built by one call with keyword arguments")
+            kw = {k.arg: k.value for k in c.keywords}
+            if fam == "ohv":
+                _need(_src(c.func) == pcls + ".from_pgmat_gpmod", "%s: the problem is not built by %s.from_pgmat_gpmod" % (where, pcls))
+                for k_, v_ in (("nparent", "self.nparent"), ("unique_parents", "self.unique_parents"), ("pgmat", "pgmat")):
+                    _need(k_ in kw and _src(kw[k_]) == v_, "%s: the problem is not built with %s = %s" % (where, k_, v_))
+                pf = P.find_function(repo, probrel, pcls + ".from_pgmat_gpmod")
+                _need(_src(P.the_assignment(pf, "xmap")) == "cls._calc_xmap(pgmat.ntaxa, nparent, unique_parents)",
+                      pcls + ".from_pgmat_gpmod: xmap is no longer cls._calc_xmap(pgmat.ntaxa, nparent, unique_parents)")
+                oc = P.the_assignment(pf, "out")
+                _need(isinstance(oc, ast.Call) and {k.arg: _src(k.value) for k in oc.keywords if k.arg}.get("decn_space_xmap") == "xmap",
+                      pcls + ".from_pgmat_gpmod: decn_space_xmap is no longer the map computed there")
+            else:
+                _need(_src(c.func) == pcls + ".from_pgmat_gpmod_xmap", "%s: the problem is not built by %s.from_pgmat_gpmod_xmap" % (where, pcls))
+                for k_, v_ in (("nparent", "self.nparent"), ("unique_parents", "self.unique_parents"), ("pgmat", "pgmat"), ("xmap", "xmap")):
+                    _need(k_ in kw and _src(kw[k_]) == v_, "%s: the problem is not built with %s = %s" % (where, k_, v_))
+                pf = P.find_function(repo, probrel, pcls + ".from_pgmat_gpmod_xmap")
+                oc = P.the_assignment(pf, "out")
+                _need(isinstance(oc, ast.Call) and {k.arg: _src(k.value) for k in oc.keywords if k.arg}.get("decn_space_xmap") == "xmap"
+                      and not [n for n in ast.walk(pf) if isinstance(n, ast.Assign) and any(_src(t) == "xmap" for t in n.targets)],
+                      pcls + ".from_pgmat_gpmod_xmap: decn_space_xmap is no longer the map handed in")
+            for k_ in ("decn_space", "decn_space_lower", "decn_space_upper"):
+                _need(k_ in kw and _src(kw[k_]) == k_, "%s: the problem is not built with %s = %s" % (where, k_, k_))
+            # --- the space
+            senv = {"nxmap": "nxmap", "self.ncross": "ncross", "self.nparent": "nparent", "sum_nmating": "sum_nmating", "sum_nmating_nprogeny": "sum_nmating_nprogeny"}
+            sums = {"numpy.sum(self.nmating * self.nprogeny)": "sum_nmating_nprogeny", "numpy.sum(self.nmating)": "sum_nmating", "len(xmap)": "nxmap"}
+            sargs = [("ncross", "Z"), ("nparent", "Z"), ("nxmap", "Z"), ("sum_nmating", "Z"), ("sum_nmating_nprogeny", "Z")]
+            sort = "Q" if tag == "rmate" else "Z"
+            def num(e, srt="Z"):
+                src = _src(e)
+                bound = {k: v for k, v in sums.items() if k in src}
+                if "numpy.sum(self.nmating * self.nprogeny)" in bound: bound.pop("numpy.sum(self.nmating)", None)
+                return P.to_coq(bind(e, bound) if bound else e, P.Ctx(srt, senv if srt == "Z" else {}))
+            lo, up, sp = P.the_assignment(fn, "decn_space_lower"), P.the_assignment(fn, "decn_space_upper"), P.the_assignment(fn, "decn_space")
+            for e, what in ((lo, "decn_space_lower"), (up, "decn_space_upper")):
+                _need(isinstance(e, ast.Call) and _src(e.func) == "numpy.repeat" and len(e.args) == 2 and not e.keywords,
+                      "%s: %s is not numpy.repeat(<number>, <count>): %s" % (where, what, _src(e)))
+            _need("self.nmating" not in _src(lo.args[0]).replace("numpy.sum(self.nmating * self.nprogeny)", "").replace("numpy.sum(self.nmating)", "")
+                  and "self.nmating" not in _src(up.args[0]).replace("numpy.sum(self.nmating * self.nprogeny)", "").replace("numpy.sum(self.nmating)", ""),
+                  where + ": a bound uses the per-cross nmating array otherwise than through a sum (ONE number must be repeated)")
+            D(pre + "_lower_v", [] if sort == "Q" else sargs, sort, num(lo.args[0], sort), "%s: decn_space_lower = %s   (the repeated number)" % (where, _src(lo)))
+            D(pre + "_lower_n", sargs, "Z", num(lo.args[1]), "%s: decn_space_lower = %s   (how many times)" % (where, _src(lo)))
+            D(pre + "_upper_v", [] if sort == "Q" else sargs, sort, num(up.args[0], sort), "%s: decn_space_upper = %s   (the repeated number)" % (where, _src(up)))
+            D(pre + "_upper_n", sargs, "Z", num(up.args[1]), "%s: decn_space_upper = %s   (how many times)" % (where, _src(up)))
+            _need("ndecn" in kw, where + ": the problem is built without ndecn")
+            D(pre + "_ndecn", sargs, "Z", num(kw["ndecn"]), "%s: ndecn = %s" % (where, _src(kw["ndecn"])))
+            if tag == "mate":
+                _need(isinstance(sp, ast.Call) and _src(sp.func) == "numpy.arange" and len(sp.args) == 1 and not sp.keywords,
+                      "%s: decn_space is not numpy.arange(<number of rows>): %s" % (where, _src(sp)))
+                D(pre + "_space_n", sargs, "Z", num(sp.args[0]), "%s: decn_space = %s   (members 0 .. n-1)" % (where, _src(sp)))
+            else:
+                _need(_src(sp) == "numpy.stack([decn_space_lower, decn_space_upper])", where + ": decn_space is no longer numpy.stack([decn_space_lower, decn_space_upper])")
 
     text = (P.HEADER % "harness/translate/c07_kernel.py") + \
         "From Coq Require Import ZArith QArith Bool List.\nImport ListNotations.\nLocal Open Scope Z_scope.\n\n" + "\n".join(defs)
